@@ -54,6 +54,21 @@ let parse_img (s : string) : image * z =
     (r, z_of_int !n)
   end
 
+(* the root handed to the visitors: no prefix = a region holding the volumes; "V!" the
+   single volume itself; "S!" a section holding the volumes; "F!" a file (the image is
+   then what is nested in it).  Remove.Visit and Find.Visit only descend through anything
+   that is not a volume / file, so the model's image is the list of volumes below the root. *)
+let parse_root (s : string) : image * z =
+  if String.length s >= 2 && s.[1] = '!' then begin
+    let rest = String.sub s 2 (String.length s - 2) in
+    match s.[0] with
+    | 'V' | 'S' -> parse_img rest
+    | 'F' -> (match parse_img rest with
+        | ([[f]], nx) -> (f.f_kids, nx)
+        | _ -> failwith "F! needs one file")
+    | _ -> failwith "unknown root kind"
+  end else parse_img s
+
 let rec show_file f =
   hex_of_z f.f_guid ^ "." ^ hex_of_z f.f_type ^ "." ^ hex_of_z f.f_size ^
   (match f.f_kids with [] -> "" | k -> "<" ^ show_vols k ^ ">")
@@ -80,15 +95,15 @@ let show_clean (o : cstate outcome) : string =
 let eval fn args : string option =
   match fn, args with
   | "clean", [pol; pc; img; script] ->
-    let (im, nx) = parse_img img in
+    let (im, nx) = parse_root img in
     Some (show_clean (dxe_clean fixed (script_oracle (parse_script script)) (z_of_hex pol)
                         (pred_of_code (z_of_hex pc)) im nx))
   | "cleanmono", [pol; pc; img; req] ->
-    let (im, nx) = parse_img img in
+    let (im, nx) = parse_root img in
     Some (show_clean (dxe_clean fixed (boots_iff (parse_zs req)) (z_of_hex pol)
                         (pred_of_code (z_of_hex pc)) im nx))
   | "remove", [pol; pad; sel; img; k] ->
-    let (im, nx) = parse_img img in
+    let (im, nx) = parse_root img in
     let p = if sel.[0] = 'g' then guid_pred (z_of_hex (String.sub sel 1 (String.length sel - 1)))
       else if sel.[0] = 'r' then file_pred (z_of_hex (String.sub sel 1 (String.length sel - 1)))
       else pred_of_code (z_of_hex (String.sub sel 1 (String.length sel - 1))) in
